@@ -341,6 +341,7 @@ type vfSpec struct {
 	PrelaunchFailFirst bool
 	Subs          []int         // stream event types subscribed at launch
 	Loop          time.Duration // Loop job to self started at launch
+	LoopID        int           // message id carried by the launch Loop job (0: untracked)
 	Once          time.Duration // harmless Once job to self at launch (leaves a fired one-shot entry behind)
 	OnceFail      time.Duration // Once job to self at launch whose delivery fails (first incarnation only)
 	BecomeAt      int           // after n user messages install a 'became' behaviour; 0 = never
@@ -551,7 +552,11 @@ func (a *vfActor) onLaunch(ctx vivid.ActorContext) {
 		ctx.EventStream().Subscribe(ctx, vfStreamEvOf(t))
 	}
 	if a.spec.Loop > 0 {
-		_ = ctx.Scheduler().Loop(ctx.Ref(), a.spec.Loop, &vfSched{Ref: "loop", ID: -1}, vivid.WithSchedulerReference("vfloop"))
+		lid := -1
+		if a.spec.LoopID > 0 {
+			lid = a.spec.LoopID
+		}
+		_ = ctx.Scheduler().Loop(ctx.Ref(), a.spec.Loop, &vfSched{Ref: "loop", ID: lid}, vivid.WithSchedulerReference("vfloop"))
 	}
 	if a.spec.Once > 0 {
 		_ = ctx.Scheduler().Once(ctx.Ref(), a.spec.Once, &vfSched{Ref: "once", ID: -1}, vivid.WithSchedulerReference("vfonce"))
